@@ -9,7 +9,7 @@ import CanvasModel.Prelude
 * `slice`        — the line slicing inside RichText.ToText (/repo/text.go:708-879): the
                    ai/ag/bi/bg/eolSkip bookkeeping from items + breakpoints; a Go index/slice panic is
                    the explicit outcome `none`.
-* `reorder`      — reorderSpans (/repo/text.go:282-312), generic over the coordinate type.
+* `reorder`      — reorderSpans (/repo/text.go:282-312, mirror-within-extent version), generic over the coordinate type.
 * `itemize`      — text.ScriptItemizer (/repo/text/text.go:21-78) over abstract runes
                    (script code, embedding level, ZWJ/ZWNJ flag, replacement-char flag).
 * `indexOf`      — indexer.index (/repo/text.go:394-401).
@@ -129,7 +129,7 @@ def stepHyph (al : Align) (sw : Float) (g : G) (s : St) : St :=
   | .left | .right =>
     ((((s.push (mkPen 0.0 infinity false)).push (mkGlue 0.0 sw 0.0)).push (mkPen hw (10.0 * hyphenPenalty) true)).inc).push
       (mkGlue 0.0 (-sw) 0.0)
-  | .centered => s
+  | .centered => (s.push (mkPen 0.0 infinity false)).inc   -- no break opportunity, but the glyph is counted
 
 def stepCh (gs : Array G) (i : Nat) (g : G) (s : St) : St :=
   let s := if 1 < s.len ∧ s.last.ty = .box then
@@ -226,7 +226,7 @@ def sliceLine (shy : Nat → Bool) (n : Nat) (rest : List It) (k : Nat) (ag : Na
     if brk.ty = .pen ∧ brk.size = 1 ∧ n < bg then none   -- glyphs[bg] out of range
     else
       let hyph : Bool := brk.ty = .pen ∧ brk.size = 1 ∧ shy bg
-      let e1 := if hyph then e else e + brk.size
+      let e1 := if hyph then 0 else e + brk.size   -- `eolSkip = 0` when the break is hyphenated
       let gl := after.takeWhile (fun it => it.ty = .glue)
       let bg2 := bg + brk.size + isz gl
       let e2 := e1 + isz gl
@@ -258,31 +258,39 @@ structure Span (α : Type) where
   x : α
   w : α
 
-/-- `for i := last-1; first <= i; i-- { spans[i].X = x; x += spans[i].Width }` on the reversed run -/
-def relayRev {α : Type} [Add α] : α → List (Span α) → List (Span α)
-  | _, [] => []
-  | x, s :: r => { s with x := x } :: relayRev (x + s.w) r
+section reorder
+variable {α : Type} [Add α] [Sub α] [LT α] [∀ a b : α, Decidable (a < b)]
 
-def relayout {α : Type} [Add α] (run : List (Span α)) (x0 : α) : List (Span α) :=
-  (relayRev x0 run.reverse).reverse
+/-- `lo, hi` of a run: least X and greatest X+Width, scanned like the Go loop (seeded with the first span) -/
+def extent (s : Span α) (r : List (Span α)) : α × α :=
+  r.foldl (fun (lh : α × α) t =>
+    (if t.x < lh.1 then t.x else lh.1, if lh.2 < t.x + t.w then t.x + t.w else lh.2)) (s.x, s.x + s.w)
 
-/-- the `first` loop of reorderSpans from the current element on; `fuel` = remaining length -/
-def reorderGo {α : Type} [Add α] : Nat → Nat → List (Span α) → List (Span α)
+def mir (lo hi : α) (t : Span α) : Span α := { t with x := lo + hi - t.x - t.w }
+
+/-- `if 1 < last-first { …; spans[i].X = lo + hi - spans[i].X - spans[i].Width }` -/
+def mirror : List (Span α) → List (Span α)
+  | [] => []
+  | [s] => [s]
+  | s :: t :: r => (s :: t :: r).map (mir (extent s (t :: r)).1 (extent s (t :: r)).2)
+
+/-- the `first` loop of reorderSpans: at a span above `prev` the run at level `prev+1` or deeper is
+mirrored within its extent, deeper levels are handled inside the run, then the loop continues behind
+the run (whose first span is at level ≤ prev, so no run starts there) -/
+def fixGo : Nat → Nat → List (Span α) → List (Span α)
   | 0, _, l => l
   | _, _, [] => []
   | fuel + 1, prev, s :: rest =>
     if prev < s.level then
-      let inRun := rest.takeWhile (fun t => s.level ≤ t.level)
+      let inRun := rest.takeWhile (fun t => decide (prev + 1 ≤ t.level))
       let tail := rest.drop inRun.length
-      let run := s :: inRun
-      let x0 := if s.level % 2 = 1 then s.x else (run.getLast?.getD s).x
-      let run' := if 1 < run.length then relayout run x0 else run
-      match run' ++ tail with
-      | [] => []
-      | s' :: rest' => s' :: reorderGo fuel s.level rest'
-    else s :: reorderGo fuel s.level rest
+      fixGo fuel (prev + 1) (mirror (s :: inRun)) ++ fixGo fuel prev tail
+    else s :: fixGo fuel s.level rest
 
-def reorder {α : Type} [Add α] (l : List (Span α)) : List (Span α) := reorderGo l.length 0 l
+def fuelFor (l : List (Span α)) : Nat := (l.length + 1) * ((l.map (·.level)).foldl max 0 + 2)
+
+def reorder (l : List (Span α)) : List (Span α) := fixGo (fuelFor l) 0 l
+end reorder
 
 /-! ## (d) ScriptItemizer -/
 
@@ -352,13 +360,14 @@ def indexOf (ix : List Int) (loc : Int) : Int := (indexGo loc 0 ix).getD (ix.len
 inductive HAlign | left | right | center | justify
 deriving DecidableEq, Repr
 
-/-- x of the first span of line j: `W` = breaks[j].Width (includes the indent box on line 0) -/
-def lineX0 {α : Type} [Add α] [Sub α] [Div α] [OfNat α 0] [OfNat α 2] (h : HAlign) (width W indent : α) (first : Bool) : α :=
-  let x : α := match h with
-    | .right => 0 + (width - W)
-    | .center => 0 + (width - W) / 2
-    | _ => 0
-  if first then x + indent else x
+/-- x of the first span of line j: the spans are laid out from the indent (first line) and then
+shifted by `width - x` (half of it when centred), `x` = end of the last span, `tw` = width shown -/
+def lineX0 {α : Type} [Add α] [Sub α] [Div α] [OfNat α 0] [OfNat α 2] (h : HAlign) (width tw indent : α) (first : Bool) : α :=
+  let x0 : α := if first then 0 + indent else 0
+  match h with
+  | .right => x0 + (width - (x0 + tw))
+  | .center => x0 + (width - (x0 + tw)) / 2
+  | _ => x0
 
 /-- heights of one line after the lineSpacing scaling: (ascent, bottom) -/
 structure LH (α : Type) where
